@@ -35,6 +35,8 @@ def run_mutant(prop, patch, tier):
     if p.returncode != 0:
       return 'patch-failed', p.stdout + p.stderr, 0.0
     env = dict(os.environ, VERIF_REPO=dst, VP_NO_EVIDENCE='1')
+    if os.environ.get('VP_SELFTEST_FULL') != '1':
+      env['VP_FAIL_FAST'] = '1'   # stop the run at the first violation (the verdict cannot change)
     t0 = time.time()
     q = subprocess.run([os.path.join(HERE, 'check'), prop, tier], env=env, capture_output=True,
                        text=True)
